@@ -175,6 +175,21 @@ func (fx *FX) execInstr(fr *frame, st *State, ins ssa.Instruction) bool {
 		v := fr.val(t.X)
 		v.Typ = t.Type()
 		fr.vals[t] = v
+		// a closure converted to a named func type with a protocol must have a contract implementing it
+		if key := fx.e.namedTypeKey(t.Type()); key != "" && v.Clo != nil && v.Clo.Fn != nil {
+			if proto := fx.e.CS.ByName["functype "+key]; proto != nil {
+				ok := false
+				if cc := fx.e.contractFor(v.Clo.Fn); cc != nil {
+					for k := 0; k+1 < len(cc.Implements); k += 2 {
+						if cc.Implements[k] == "functype" && cc.Implements[k+1] == key {
+							ok = true
+						}
+					}
+				}
+				fx.oblige(st, "refine", fmt.Sprintf("conforms(%s as %s)", fx.e.fnName(v.Clo.Fn), key),
+					"the closure has a verified contract that implements the protocol of "+key, BoolLit(ok), t.Pos(), proto.Props)
+			}
+		}
 		return true
 	case *ssa.ChangeInterface:
 		fr.vals[t] = fr.val(t.X)
@@ -377,7 +392,7 @@ func (fx *FX) indexAddr(fr *frame, st *State, t *ssa.IndexAddr) *Addr {
 	case *types.Slice:
 		s := fx.termOf(fr, st, fr.val(t.X))
 		fx.safe(fr, st, "index in range", And(Ge(idx, zero), Lt(idx, sLen(s))), t.Pos())
-		return &Addr{Kind: "elem", Obj: s, Idx: idx, ElemSort: w.SortOf(xt.Elem()), Base: xt.Elem(), FTyp: xt.Elem()}
+		return &Addr{Kind: "elem", Obj: s, Idx: idx, ElemSort: w.SortOf(xt.Elem()), Base: xt.Elem(), FTyp: xt.Elem(), Imm: fr.val(t.X).Imm}
 	case *types.Pointer:
 		arr := xt.Elem().Underlying().(*types.Array)
 		base := fx.addrOf(fr, st, t.X, t.Pos())
@@ -401,11 +416,32 @@ func (fx *FX) immutableField(sname string, field int) (string, bool) {
 	for k := range fx.e.CS.Immutable {
 		if sanitize(k) == name+"_"+sanitize(si.fnames[field]) {
 			fn := "F_" + name + "_" + sanitize(si.fnames[field])
-			fx.e.W.Declare(fn, fmt.Sprintf("(declare-fun %s (Int) %s)", fn, si.fields[field]))
+			if _, declared := fx.e.CS.Funs[fn]; !declared {
+				fx.e.W.Declare(fn, fmt.Sprintf("(declare-fun %s (Int) %s)", fn, si.fields[field]))
+			}
 			return fn, true
 		}
 	}
 	return "", false
+}
+
+// immElems: element-array function for an immutable slice-typed field.
+func (fx *FX) immElems(sname string, field int, obj Term) *immInfo {
+	fn, ok := fx.immutableField(sname, field)
+	if !ok {
+		return nil
+	}
+	si := fx.e.W.structs[sname]
+	sl, isSlice := si.typ.Field(field).Type().Underlying().(*types.Slice)
+	if !isSlice {
+		return nil
+	}
+	es := fx.e.W.SortOf(sl.Elem())
+	fe := "FE_" + strings.TrimPrefix(fn, "F_")
+	if _, declared := fx.e.CS.Funs[fe]; !declared {
+		fx.e.W.Declare(fe, fmt.Sprintf("(declare-fun %s (Int) %s)", fe, SArr(SBV64, es)))
+	}
+	return &immInfo{fe: fe, obj: obj, es: es}
 }
 
 func (fx *FX) loadHeapField(st *State, obj Term, sname string, field int) Term {
@@ -424,6 +460,11 @@ func (fx *FX) storeHeapField(fr *frame, st *State, obj Term, sname string, field
 		// initialising store on an object allocated by this function (frame analysis checks that)
 		if !init {
 			fx.assume(st.reach, IdEq(app(fn, si.fields[field], obj), v))
+			if im := fx.immElems(sname, field, obj); im != nil {
+				key := "M:" + sortID(im.es)
+				mem := fx.comp(st, key, SArr(SInt, SArr(SBV64, im.es)))
+				fx.assume(st.reach, IdEq(app(im.fe, SArr(SBV64, im.es), obj), Select(mem, sReg(v))))
+			}
 		}
 		return
 	}
@@ -483,6 +524,9 @@ func (fx *FX) loadRoot(fr *frame, st *State, a *Addr, pos token.Pos) Term {
 		}
 		return w.StructMake(a.SName, fs)
 	case "elem":
+		if a.Imm != nil {
+			return Select(app(a.Imm.fe, SArr(SBV64, a.Imm.es), a.Imm.obj), bvbin("bvadd", sOff(a.Obj), a.Idx))
+		}
 		key := "M:" + sortID(a.ElemSort)
 		mem := fx.comp(st, key, SArr(SInt, SArr(SBV64, a.ElemSort)))
 		return Select(Select(mem, sReg(a.Obj)), bvbin("bvadd", sOff(a.Obj), a.Idx))
@@ -534,6 +578,9 @@ func (fx *FX) store(fr *frame, st *State, a *Addr, v Term, pos token.Pos) {
 			fx.storeHeapField(fr, st, a.Obj, a.SName, k, nil, w.StructGet(v, k, stt.Field(k).Type()), false)
 		}
 	case "elem":
+		if a.Imm != nil {
+			fx.oblige(st, "frame", "frame(immutable elements)", "no store into the elements of an immutable slice field", False, pos, nil)
+		}
 		key := "M:" + sortID(a.ElemSort)
 		mem := fx.comp(st, key, SArr(SInt, SArr(SBV64, a.ElemSort)))
 		arr := Select(mem, sReg(a.Obj))
@@ -603,6 +650,9 @@ func (fx *FX) execUnOp(fr *frame, st *State, t *ssa.UnOp) bool {
 		rv := Val{T: fx.define(t.Name(), v), Typ: t.Type()}
 		if a.Kind != "cell" && a.Kind != "const" {
 			fx.assumeWF(st, rv.T, t.Type())
+		}
+		if a.Kind == "heap" && len(a.Path) == 0 {
+			rv.Imm = fx.immElems(a.SName, a.Field, a.Obj)
 		}
 		if _, isSig := t.Type().Underlying().(*types.Signature); isSig && a.Kind == "cell" {
 			// function values stored in local cells: keep closure identity if known
@@ -911,7 +961,7 @@ func (fx *FX) execSlice(fr *frame, st *State, t *ssa.Slice) bool {
 		hi := get(t.High, sLen(s))
 		mx := get(t.Max, sCap(s))
 		fx.safe(fr, st, "slice bounds", And(Le(zero, lo), Le(lo, hi), Le(hi, mx), Le(mx, sCap(s))), t.Pos())
-		fr.vals[t] = Val{T: fx.define(t.Name(), mkSlice(sReg(s), bvbin("bvadd", sOff(s), lo), bvbin("bvsub", hi, lo), bvbin("bvsub", mx, lo))), Typ: t.Type()}
+		fr.vals[t] = Val{T: fx.define(t.Name(), mkSlice(sReg(s), bvbin("bvadd", sOff(s), lo), bvbin("bvsub", hi, lo), bvbin("bvsub", mx, lo))), Typ: t.Type(), Imm: fr.val(t.X).Imm}
 	case *types.Basic: // string
 		s := fr.val(t.X).T
 		lo := get(t.Low, zero)
